@@ -609,7 +609,10 @@ class ZOptimize:
             raise StubGap("Optimize.check with assumptions")
         self._tab()
         if "timeout" in self.params and symex.ENG is not None and symex.ENG.notes.get("solver_may_give_up"):
-            if symex.sym_truth(symex.ENG.fresh("giveup")):
+            log = symex.ENG.notes.setdefault("giveups", [])
+            gave_up = symex.sym_truth(symex.ENG.fresh("giveup")) if not any(log) else False
+            log.append(bool(gave_up))
+            if gave_up:
                 self.last = Z.unknown
                 return Z.unknown
         nz = tt.t_nonzero(self._H())
@@ -622,6 +625,15 @@ class ZOptimize:
     def model(self):
         if self.mode == "real":
             return self.real.model()
+        if self.last == Z.unknown:
+            # z3 after a cancelled check: either no model at all, or the best model found so
+            # far - it satisfies the hard constraints but is not known to be optimal
+            H = self._H()
+            if symex.sym_truth(symex.ENG.fresh("nomodel")) or not symex.sym_truth(tt.t_nonzero(H)):
+                raise Z.Z3Exception("model is not available")
+            w = symex.ENG.fresh("w", Z.BitVecSort(max(CTX.N, 1)))
+            symex.ENG.add(lambda: tt.t_lookup(H, w))
+            return FModel(w)
         if self.last != Z.sat:
             raise Z.Z3Exception("model is not available")
         eng = symex.ENG
